@@ -139,9 +139,9 @@ RULE = ('case = one command sequence with its reply script (code and 1..3 lines 
 ASSUMPTIONS = ['ScriptSocket hands out exactly the scripted segments',
                'message content is sent only after a 3xx answer to DATA (the caller obeys the protocol); the '
                'script server treats the bytes after such a DATA up to CRLF.CRLF as content',
-               'LMTP script model: the accepted-recipient list is cleared by a 2xx LHLO, RSET or MAIL and after '
-               'end-of-data; RSET and LHLO are answered 2xx (250 for LHLO) whenever another LMTP transaction '
-               'follows',
+               'LMTP script model: the accepted-recipient list is cleared by a 250 LHLO, a 2xx RSET or MAIL and '
+               'after end-of-data; RSET is answered with any code class, and the MAIL that follows an RSET not '
+               'answered 2xx is accepted (that acceptance is what starts the new transaction on the server)',
                'the client learns PIPELINING and SMTPUTF8 only from a 250 EHLO/LHLO reply',
                'a non-ASCII address without SMTPUTF8 in effect is refused by the client (UnicodeEncodeError); a '
                'client that sent something instead makes the run inconclusive, not violated',
@@ -358,6 +358,16 @@ def gen_random(rnd, plain_data=False):
             return [op('flush', '250', 1)]
         return [op('get_reply', cls((30, 0, 60, 10)), nl(), esc=e(), label=rnd.choice((None, 'IDLE')))]
 
+    state = {'mail_ok': False}
+
+    def rset_op():
+        # any code class (also for LMTP). After an LMTP RSET that was not answered 2xx the script's server state
+        # is only defined again once it accepts a MAIL (which starts a new transaction): that MAIL gets 250
+        code = cls((70, 10, 10, 10))
+        if lmtp and code[0] != '2':
+            state['mail_ok'] = True
+        return op('rset', code, nl(), esc=e())
+
     ops = [op('encrypt', '220', 1)] if rnd.random() < 0.04 else []
     ops.append(op('banner', cls((90, 0, 5, 5)), nl(), esc=e()))
     hello_code = rnd.choices(['250', rnd.choice(CODES[2]), cls((0, 0, 50, 50))], (85, 5, 10))[0]
@@ -372,16 +382,19 @@ def gen_random(rnd, plain_data=False):
         if rnd.random() < 0.3:
             ops += interlude(False)
         if rnd.random() < 0.06:
-            ops += hello(hello_op, '250', arg='again.test', adv=rnd.random() < 0.5, utf8=rnd.random() < 0.5,
-                         ext=ext())
-        ops.append(op('mail', cls((70, 4, 13, 13)), nl(), arg=sender(t), esc=e(), **mailkw()))
+            # the greeting repeated mid-session, answered with any code class
+            ops += hello(hello_op, '250' if rnd.random() < 0.6 else cls((30, 10, 30, 30)), arg='again.test',
+                         adv=rnd.random() < 0.5, utf8=rnd.random() < 0.5, ext=ext())
+        ops.append(op('mail', '250' if state['mail_ok'] else cls((70, 4, 13, 13)), nl(), arg=sender(t), esc=e(),
+                      **mailkw()))
+        state['mail_ok'] = False
         for i in range(rnd.choice((0, 1, 1, 2, 2, 3, 4))):
             ops.append(op('rcpt', cls((55, 5, 20, 20)), nl(), arg=rcpt(nr), esc=e()))
             nr += 1
             if rnd.random() < 0.07:
                 ops += interlude(True)
         if rnd.random() < 0.06:          # the caller abandons the transaction before DATA
-            ops.append(op('rset', '250' if lmtp else cls((70, 10, 10, 10)), nl(), esc=e()))
+            ops.append(rset_op())
             continue
         dcode = cls((8, 62, 15, 15))
         if plain_data and dcode[0] == '3':
@@ -394,9 +407,9 @@ def gen_random(rnd, plain_data=False):
             if rnd.random() < 0.15:
                 ops.append(op('flush', '250', 1))
             if rnd.random() < 0.15:
-                ops.append(op('rset', '250' if lmtp else cls((70, 10, 10, 10)), nl(), esc=e()))
+                ops.append(rset_op())
         elif rnd.random() < 0.8:
-            ops.append(op('rset', '250' if lmtp else cls((70, 10, 10, 10)), nl(), esc=e()))
+            ops.append(rset_op())
         # else: deviation -- the caller starts the next transaction without RSET
     ops.append(op('quit', cls((80, 0, 10, 10)), nl(), esc=e()))
     return {'kind': 'rand', 'lmtp': lmtp, 'ops': ops, 'rs': rnd.randrange(1 << 30)}
@@ -557,6 +570,29 @@ def gen_concurrent_designed(seed):
                    'nsched': 40, 'rs': seed * 100 + k}
 
 
+def gen_lmtp_rset(seed):
+    """LMTP: a transaction with accepted recipients abandoned by RSET, the RSET answered with every code the
+    scripts know (2xx other than 250, 1xx, 3xx, 4xx, 5xx), then a further accepted transaction to end-of-data."""
+    codes = sorted(set(c for v in CODES.values() for c in v) | {'150'})
+    for code in codes:
+        for adv in (True, False):
+            for empty in (False, True):
+                nls = [1 + (i + empty) % 3 for i in range(12)]
+                ops = [op('banner', '220', nls[0]),
+                       op('lhlo', '250', nls[1], arg='me.test', adv=adv),
+                       op('mail', '250', nls[2], arg='s0@x.test'),
+                       op('rcpt', '250', nls[3], arg='old0@x.test'),
+                       op('rcpt', '251', nls[4], arg='old1@x.test'),
+                       op('data', '554', nls[5]),
+                       op('rset', code, nls[6]),
+                       op('mail', '250', nls[7], arg='s1@x.test'),
+                       op('rcpt', '250', nls[8], arg='new0@x.test'),
+                       op('data', '354', nls[9]),
+                       op('send_empty_data' if empty else 'send_data', '250', nls[10], arg=1, codes=['250', '452']),
+                       op('quit', '221', nls[11])]
+                yield {'kind': 'lmtprset', 'lmtp': True, 'ops': ops, 'rs': seed}
+
+
 def gen_concurrent_random(rnd):
     n = rnd.choice((2, 2, 3))
     return {'kind': 'conc', 'convs': [gen_random(rnd) for _ in range(n)],
@@ -566,7 +602,8 @@ def gen_concurrent_random(rnd):
 
 def gen_cases(tier, seed, shard, nshards):
     n = 0
-    for case in itertools.chain(gen_faults_designed(seed), gen_cuts(seed), gen_concurrent_designed(seed),
+    for case in itertools.chain(gen_lmtp_rset(seed), gen_faults_designed(seed), gen_cuts(seed),
+                                gen_concurrent_designed(seed),
                                 gen_utf8(seed), gen_mailparams(seed), gen_exhaustive(seed)):
         if n % nshards == shard:
             yield case
@@ -747,8 +784,12 @@ def build_plan(case):
             if accepted:
                 flags.add('mail-accepted-without-rset-while-recipients-pending')
             accepted = []
-        elif name == 'rset' and code[0] == '2':
-            accepted, unreset = [], []
+        elif name == 'rset':
+            unreset = []             # classification aid: not the 'MAIL without RSET' situation any more
+            if code[0] == '2':
+                accepted = []
+            else:
+                flags.add('rset-refused' if code[0] in '45' else 'rset-answered-1xx-3xx')
         elif name == 'data' and code[0] == '3':
             data3.add(units)
             if lmtp and accepted and 'rcpt-refused' in flags:
